@@ -611,6 +611,7 @@ static void vr_close(rate_t * p)
 {
   int i;
 
+  if (!p->stages) return;              /* vr_create refused the ratio. */
   fifo_delete(&p->output_fifo);
   for (i = -1; i < p->num_stages; ++i) {
     stage_t * s = &p->stages[i];
@@ -636,6 +637,8 @@ static char const * vr_create(void * channel, void * shared,double max_io_ratio,
 {
   double x = max_io_ratio;
   int n;
+  if (!(max_io_ratio < 1073741824.))   /* Octave count and step_mult use int shifts. */
+    return "resampling factor too large";
   for (n = 0; x > 1; x *= .5, ++n);
   vr_init(channel, max_io_ratio, n, scale);
   return 0;
